@@ -381,6 +381,8 @@ VOP(sch_run)
 					if (rng.chance(50)) Utility::Sleep(rng.range(0, 300) / 1e6);
 					touch(c, [&](CkInfo& k) { k.obj->SetAuthority(k.paused); k.paused = !k.paused; });
 				}
+			} else if (op < 27) {    // redundant notification: the generated setter emits OnPausedChanged also when the value is unchanged
+				touch(c, [&](CkInfo& k) { ObjectLock olock(k.obj); k.obj->SetPaused(k.paused); });
 			} else if (op < 42) {    // reschedule (API reschedule-check without force)
 				long d = rng.chance(50) ? 0 : rng.range(0, std::max(ci.ci_us, ci.ri_us));
 				touch(c, [&](CkInfo& k) { k.obj->SetNextCheck(Utility::GetTime() + d / 1e6); });
